@@ -5,6 +5,9 @@ package main
 
 import (
 	"bytes"
+	"strings"
+	"encoding/json"
+	"os"
 	"errors"
 	"compress/gzip"
 	"io"
@@ -154,8 +157,60 @@ func impl(in hv.Val) hv.Val {
 		}
 		dec, ok2 := decode(codec, got)
 		return hv.L{hv.S(ce2), hv.Bool(cl2), hv.I(wrapped), hv.B(dec), hv.Bool(ok && ok2)}
+	case 3:
+		ae := hv.AsStr(l[4])
+		ce := hv.AsStr(l[5])
+		body := append([]byte(nil), hv.AsBytes(l[7])...)
+		src := &chunkSource{chunks: [][]byte{body}}
+		if len(body) == 0 {
+			src.chunks = nil
+		}
+		os.MkdirAll(scratch, 0755)
+		data, _ := json.Marshal(map[string]interface{}{"Version": "v", "Config": map[string]interface{}{"p": []interface{}{
+			map[string]interface{}{"Cond": "default_t()", "Action": map[string]interface{}{"Cmd": hv.AsStr(l[1]),
+				"Quality": hv.AsInt(l[2]), "FlushSize": hv.AsInt(l[3])}}}}})
+		path := scratch + "/compress_rule.data"
+		if err := os.WriteFile(path, data, 0644); err != nil {
+			panic(err)
+		}
+		loaded, ce2, cl2, wrapped, rd := mod_compress.VerifLoadHandler(path, ae, ae != "", ce, ce != "", hv.AsInt(l[6]) != 0, src)
+		_, got, ok := drain(rd, nil, 512)
+		codec := 0
+		switch ce2 {
+		case "gzip":
+			codec = 1
+		case "br":
+			codec = 2
+		}
+		if ce2 == ce {
+			codec = 0
+		}
+		dec, ok2 := decode(codec, got)
+		return hv.L{hv.Bool(loaded), hv.S(ce2), hv.Bool(cl2), hv.I(wrapped), hv.B(dec), hv.Bool(ok && ok2)}
 	}
 	return hv.Err(0)
+}
+
+const scratch = "/tmp/w-mod2/c54"
+
+func genLoad(r *hv.Rng) (string, hv.Val) {
+	cmd := r.Pick([]string{"GZIP", "GZIP", "BROTLI", "BROTLI", "gzip", "Gzip", "brotli", "BR", "DEFLATE", ""})
+	var q int
+	switch r.Intn(2) {
+	case 0: // the quality bounds of the rule's codec and their neighbours
+		if strings.EqualFold(cmd, "BROTLI") {
+			q = pick(r, -1, 0, 11, 12)
+		} else {
+			q = pick(r, -3, -2, 9, 10)
+		}
+	default:
+		q = r.Range(0, 9)
+	}
+	flush := pick(r, 64, 64, 512, 4096, 63, 4097, 0, 1, 65, 4095)
+	ae := r.Pick([]string{"gzip", "br", "gzip, br", "", "deflate", "GZIP"})
+	ce := r.Pick([]string{"", "", "", "identity", "gzip"})
+	body := genBody(r, 200)
+	return "rulefile", hv.L{hv.I(3), hv.S(cmd), hv.I(q), hv.I(flush), hv.S(ae), hv.S(ce), hv.Bool(r.Chance(1, 2)), hv.B(body)}
 }
 
 func genBody(r *hv.Rng, max int) []byte {
@@ -189,6 +244,9 @@ var aes = []string{"", "gzip", "br", "gzip", "br", "gzip, deflate, br", "br,gzip
 var ces = []string{"", "", "", "", "", "", "identity", "identity", "gzip", "br", "deflate", "Identity", "compress"}
 
 func gen(r *hv.Rng, i int, tier string) (string, hv.Val) {
+	if r.Chance(1, 6) {
+		return genLoad(r)
+	}
 	if r.Chance(3, 5) {
 		codec := 0
 		if r.Chance(3, 10) { // a brotli writer costs ~30 ms to set up: smaller share
